@@ -62,8 +62,14 @@ func (p *Project) WorkflowsDir() string {
 // Knows returns true when the project knows the given file. When a file is included in the
 // project's directory, the project knows the file.
 func (p *Project) Knows(path string) bool {
-	// TODO: strings.HasPrefix is not perfect to check file path
-	return strings.HasPrefix(absPath(path), p.root)
+	// Note: Only checking the prefix is not sufficient. "/path/to/repo-other/foo.yaml" must not be
+	// known by the project at "/path/to/repo".
+	path = absPath(path)
+	if !strings.HasPrefix(path, p.root) {
+		return false
+	}
+	rest := path[len(p.root):]
+	return rest == "" || os.IsPathSeparator(rest[0]) || strings.HasSuffix(p.root, string(filepath.Separator))
 }
 
 // Config returns config object of the GitHub project repository. The config file was read from
